@@ -846,6 +846,74 @@ enum Item {
     Algebra { inst: u32, start: u64, end: u64 },
 }
 
+/// Large batches through the batch entry point: `aggregate` over n output shares (n around every power of
+/// two up to 1024 and a few odd sizes) must equal the reference sum, the report-by-report `accumulate`
+/// chain, and the merge of sub-batches of 7, 32 and 100 reports aggregated separately.
+fn large_batches<V>(run: &Run, inst: &Inst<V>)
+where
+    V: Aggregator<32, 16> + Collector,
+{
+    let sizes: Vec<usize> = run.pick(vec![8, 31, 32, 33, 64, 100, 127, 128, 129, 150, 255, 256, 257, 1000], vec![8, 31, 32, 33, 63, 64, 65, 96, 100, 127, 128, 129, 130, 150, 191, 192, 255, 256, 257, 511, 512, 513, 1000, 1023, 1024, 1025, 4099]);
+    let d = &inst.domain;
+    for n in sizes {
+        let vals: Vec<&Vec<BigUint>> = (0..n).map(|i| &d[(i * 7 + i / 5 + 1) % d.len()]).collect();
+        let mut want = vec![BigUint::zero(); inst.len];
+        for v in &vals {
+            want = ref_add(&want, v, &inst.p);
+        }
+        let want_snap = inst.expected_snap(&want);
+        let key = format!("{}/large_batch", inst.name);
+        let case = || json!({"instance": inst.name, "batch_size": n});
+        run.count("evaluations", 1);
+        run.count("large_batches", 1);
+        let whole = match call("aggregate", || inst.vdaf.aggregate(&inst.param, vals.iter().map(|v| inst.out(v)))) {
+            Ok(Ok(a)) => a,
+            other => {
+                run.fail(&format!("{key}/aggregate"), &format!("{}: aggregate over {n} well-formed output shares failed: {:?}", inst.name, other.map(|r| r.map(|_| ()).map_err(|e| e.to_string()))), case());
+                return;
+            }
+        };
+        if inst.snap(&whole) != want_snap {
+            run.fail(&format!("{key}/aggregate_value"), &format!("{}: aggregate over a batch of {n} output shares differs from the sum of the shares", inst.name), case());
+            return;
+        }
+        // report by report
+        let mut chain = inst.vdaf.aggregate_init(&inst.param);
+        for v in &vals {
+            if let Err(e) = chain.accumulate(&inst.out(v)) {
+                run.fail(&format!("{key}/accumulate"), &format!("{}: accumulate refused a well-formed share: {e}", inst.name), case());
+                return;
+            }
+        }
+        if inst.snap(&chain) != want_snap {
+            run.fail(&format!("{key}/chain_value"), &format!("{}: accumulating {n} output shares one by one differs from their sum", inst.name), case());
+            return;
+        }
+        // sub-batches aggregated separately, then merged
+        for sub in [7usize, 32, 100] {
+            let mut acc = inst.vdaf.aggregate_init(&inst.param);
+            for part in vals.chunks(sub) {
+                let a = match call("aggregate", || inst.vdaf.aggregate(&inst.param, part.iter().map(|v| inst.out(v)))) {
+                    Ok(Ok(a)) => a,
+                    _ => {
+                        run.fail(&format!("{key}/aggregate"), &format!("{}: aggregate over a sub-batch of {} shares failed", inst.name, part.len()), case());
+                        return;
+                    }
+                };
+                if let Err(e) = acc.merge(&a) {
+                    run.fail(&format!("{key}/merge"), &format!("{}: merging a sub-batch aggregate was refused: {e}", inst.name), case());
+                    return;
+                }
+            }
+            if inst.snap(&acc) != want_snap {
+                run.fail(&format!("{key}/partition_value"), &format!("{}: a batch of {n} output shares aggregated in sub-batches of {sub} and merged differs from the single pass", inst.name), case());
+                return;
+            }
+        }
+        run.distinct(fnv(format!("large/{}/{n}", inst.name).as_bytes()));
+    }
+}
+
 fn main() {
     let run = Run::from_args("C13", Level::ModelChecking);
     let run = &run;
@@ -880,6 +948,14 @@ fn main() {
         insts.push(plan(run, prio2_inst(l), 1));
     }
 
+    // large batches through the batch entry point (one instance per VDAF and kind)
+    large_batches(run, &prio2_inst(3));
+    large_batches(run, &prio2_inst(1));
+    large_batches(run, &prio3_inst(count_case::<Field64>(), 1, false));
+    large_batches(run, &prio3_inst(histogram_case::<Field128>(3, 1), 3, false));
+    large_batches(run, &prio3_inst(sumvec_case::<FieldV17>(1, 2, 1), 2, false));
+    large_batches(run, &poplar_inst(3, 1, 2));
+    large_batches(run, &poplar_inst(3, 2, 3));
     // all work items of all instances, heaviest first, over one pool of workers
     let mut items: Vec<(usize, Item)> = vec![];
     let mut batch_base: Vec<usize> = vec![];
